@@ -1,9 +1,126 @@
-// mem.cpp -- C20 mechanism A: hostile fresh memory (placeholder until the allocator layer is linked)
+// mem.cpp -- C20: outputs never contain or depend on uninitialised memory.
+//  Mechanism A (native binary with memfill.cpp linked): the plan is executed three times with different
+//  fill patterns for fresh / released heap blocks and for the stack below every API call; every output
+//  (event hash over all frames, packets, built payloads) must be bit-identical.
+//  Mechanism B (same objects without memfill.cpp, under valgrind memcheck): every output buffer is checked
+//  with VALGRIND_CHECK_MEM_IS_DEFINED and any error memcheck counts during the run (a branch or address
+//  depending on an undefined value inside the library) is a violation.
+#include <cstring>
+#include <string>
+
+#include "adapter.h"
 #include "exec.h"
+
+#if __has_include(<valgrind/memcheck.h>)
+#include <valgrind/memcheck.h>
+#define SIM_HAVE_VALGRIND 1
+#else
+#define SIM_HAVE_VALGRIND 0
+#define RUNNING_ON_VALGRIND 0
+#endif
+
+extern "C" void sim_set_fill(int fresh, int freed) __attribute__((weak));
+
 namespace sim
 {
+
+static int g_stackPattern = -1;
+
+__attribute__((noinline)) static void scribbleStack()
+{
+    if (g_stackPattern < 0)
+        return;
+    volatile char area[48 * 1024];
+    memset(const_cast<char*>(area), g_stackPattern, sizeof area);
+    // keep the compiler from dropping the array
+    asm volatile("" : : "r"(area) : "memory");
+}
+
+static std::string g_undefWhat;
+static unsigned long g_undefCount = 0;
+
+static void definednessTap(const void* data, size_t n, const char* what)
+{
+#if SIM_HAVE_VALGRIND
+    if (n == 0)
+        return;
+    unsigned long bad = VALGRIND_CHECK_MEM_IS_DEFINED(data, n);
+    if (bad)
+    {
+        if (g_undefCount == 0)
+            g_undefWhat = std::string(what) + " byte " + std::to_string(bad - reinterpret_cast<unsigned long>(data)) + " of " + std::to_string(n);
+        ++g_undefCount;
+    }
+#else
+    (void) data;
+    (void) n;
+    (void) what;
+#endif
+}
+
 RunResult execMemoryDifferential(const Plan& plan)
 {
-    return execPlan(plan);
+    if (RUNNING_ON_VALGRIND)
+    {
+#if SIM_HAVE_VALGRIND
+        g_undefCount = 0;
+        g_undefWhat.clear();
+        setOutputTap(definednessTap);
+        const unsigned long before = VALGRIND_COUNT_ERRORS;
+        RunResult r = execPlan(plan);
+        const unsigned long after = VALGRIND_COUNT_ERRORS;
+        setOutputTap(nullptr);
+        r.probes["valgrind-run"] += 1;
+        if (g_undefCount)
+        {
+            Violation v;
+            v.prop = plan.prop;
+            v.rule = "mem.undefined-output";
+            v.detail = "uninitialised bytes in an output: " + g_undefWhat + " (" + std::to_string(g_undefCount) + " buffers affected)";
+            r.viol.insert(r.viol.begin(), v);
+        }
+        else if (after != before)
+        {
+            Violation v;
+            v.prop = plan.prop;
+            v.rule = "mem.undefined-branch";
+            v.detail = "valgrind memcheck reported " + std::to_string(after - before) + " error(s) during the run (see its report on stderr)";
+            r.viol.insert(r.viol.begin(), v);
+        }
+        return r;
+#endif
+    }
+    if (!sim_set_fill)
+        return execPlan(plan);  // no allocator layer linked: plain execution
+    static const int patterns[3][2] = {{0xA5, 0x5A}, {0x3C, 0xC3}, {0x00, 0x00}};
+    RunResult first;
+    uint64_t hashes[3] = {0, 0, 0};
+    for (int i = 0; i < 3; ++i)
+    {
+        sim_set_fill(patterns[i][0], patterns[i][1]);
+        g_stackPattern = patterns[i][0];
+        lib::setPreCallHook(scribbleStack);
+        RunResult r = execPlan(plan);
+        lib::setPreCallHook(nullptr);
+        sim_set_fill(-1, -1);
+        g_stackPattern = -1;
+        hashes[i] = r.eventHash;
+        if (i == 0)
+            first = std::move(r);
+        else if (!r.viol.empty() && first.viol.empty())
+            first.viol = r.viol;  // an oracle disagreeing under one fill only is a dependence as well
+    }
+    first.probes["fill-differential"] += 1;
+    if (hashes[0] != hashes[1] || hashes[0] != hashes[2])
+    {
+        Violation v;
+        v.prop = plan.prop;
+        v.rule = "mem.diff-fill";
+        v.detail = "outputs differ between fresh-memory fill patterns: 0xA5/0x5A -> " + std::to_string(hashes[0]) + ", 0x3C/0xC3 -> " +
+                   std::to_string(hashes[1]) + ", zero -> " + std::to_string(hashes[2]);
+        first.viol.insert(first.viol.begin(), v);
+    }
+    return first;
 }
+
 }  // namespace sim
